@@ -128,6 +128,28 @@ ProcessSize ==
 Next == Start \/ ProcessSize
 Spec == Init /\ [][Next]_vars /\ WF_vars(Next)
 
+\* ---------------------------------------------------------------- staged choice of the instance (simulation mode)
+\* TLC's simulator has to enumerate the initial states; for four geos that set is too large.  The staged variant picks
+\* the eligibility class geo by geo and then the parameters, so that every step has few successors; after "params"
+\* the behaviour is exactly Spec's.
+PickName(g) == "pick" \o ToString(g)
+InitStaged == /\ elig = [g \in Geos |-> "absent"]
+              /\ tr = (CHOOSE x \in TRs : TRUE) /\ cr = (CHOOSE x \in CRs : TRUE) /\ gtol = (CHOOSE x \in GTols : TRUE)
+              /\ nmax = (CHOOSE x \in NMaxs : TRUE) /\ tooLarge = (CHOOSE x \in TooLarges : TRUE)
+              /\ kcap = (CHOOSE x \in KCaps : TRUE) /\ rankFam = (CHOOSE x \in RankFams : TRUE)
+              /\ optFam = (CHOOSE x \in OptFams : TRUE) /\ hasBudget = (CHOOSE x \in Budgets : TRUE)
+              /\ pc = PickName(1) /\ sizes = <<>> /\ patterns = {} /\ heap = {} /\ pushed = {}
+Pick == \E g \in Geos : /\ pc = PickName(g)
+                        /\ \E cl \in Classes : elig' = [elig EXCEPT ![g] = cl]
+                        /\ pc' = IF g = N THEN "params" ELSE PickName(g + 1)
+                        /\ UNCHANGED <<tr, cr, gtol, nmax, tooLarge, kcap, rankFam, optFam, hasBudget, sizes, patterns, heap, pushed>>
+Params == /\ pc = "params"
+          /\ tr' \in TRs /\ cr' \in CRs /\ gtol' \in GTols /\ nmax' \in NMaxs /\ tooLarge' \in TooLarges
+          /\ kcap' \in KCaps /\ rankFam' \in RankFams /\ optFam' \in OptFams /\ hasBudget' \in Budgets
+          /\ pc' = "start"
+          /\ UNCHANGED <<elig, sizes, patterns, heap, pushed>>
+SpecStaged == InitStaged /\ [][Pick \/ Params \/ Next]_vars
+
 \* ---------------------------------------------------------------- properties
 NoCrash == pc # "crash"                                    \* C09
 PushedLegal == \A d \in pushed : Legal(d[1], d[2])         \* C01
